@@ -36,7 +36,17 @@ class Rig(object):
                             whitening=['none', 'monomial'][k % 2], rate=[1024, 0.015625][(k // 2) % 2])
         ds['sc'] = None
         self.ds = ds
-        self.params = D.write_dataset(self.dir, ds, naming='ks', col1=bool(k % 2))
+        # layouts: KiloSort names (no cluster file: the loader creates the copy); ALF names with a cluster file;
+        # ALF names carrying a label before the extension (what the ALF export writes for one probe of several)
+        layout = ['ks', 'ks', 'alf', 'alf-label'][(k // 2) % 4]
+        if layout != 'ks':
+            ds['sc'] = np.asarray(ds['st']).copy()
+        self.params = D.write_dataset(self.dir, ds, naming='ks' if layout == 'ks' else 'alf', col1=bool(k % 2))
+        if layout == 'alf-label':
+            for f in sorted(self.dir.iterdir()):
+                parts = f.name.split('.')
+                if len(parts) == 3 and parts[0] in ('spikes', 'clusters', 'templates', 'channels') and parts[2] == 'npy':
+                    f.rename(self.dir / ('%s.%s.probe00.npy' % (parts[0], parts[1])))
         st = np.asarray(ds['st'])
         v1 = st.copy(); v1[0] = 4
         v2 = st.copy(); v2[-2:] = 5
